@@ -80,12 +80,14 @@ _FLAG = re.compile(r'<<"FLAG", "([^"]+)", (-?\d+), (\d+)>>')
 _SUMMARY = re.compile(r'^"SUMMARY (.*)"$', re.M)
 
 
-def tlc(spec_dir_files, tla, cfg, workdir, workers="1", timeout=1800, constants=None, extra=None, coverage=False):
+def tlc(spec_dir_files, tla, cfg, workdir, workers="1", timeout=1800, constants=None, extra=None, coverage=False, cfg_text=None):
     """Runs TLC in workdir (a fresh copy of the spec files). Returns a dict with the parsed output."""
     os.makedirs(workdir, exist_ok=True)
     for f in os.listdir(os.path.join(VERIF, "spec")):
         if f.endswith(".tla") or f.endswith(".cfg"):
             shutil.copy(os.path.join(VERIF, "spec", f), workdir)
+    if cfg_text is not None:
+        open(os.path.join(workdir, cfg), "w").write(cfg_text)
     if constants:
         c = open(os.path.join(workdir, cfg)).read()
         for k, v in constants.items():
